@@ -458,9 +458,9 @@ func GenSched(r *sim.Rand, tier string) sim.Script {
 		var ops []Op
 		for i := 2 + r.Intn(5); i > 0; i-- {
 			p := pool[r.Intn(len(pool))]
-			w := []int{30, 18, 25, 8, 5, 4, 3, 4, 3, 6, 3, 3, 3}
+			w := []int{30, 18, 25, 8, 5, 4, 3, 4, 3, 6, 3, 3, 3, 3}
 			if lossy {
-				w = []int{0, 0, 40, 10, 5, 15, 10, 0, 3, 0, 3, 0, 0}
+				w = []int{0, 0, 40, 10, 5, 15, 10, 0, 3, 0, 3, 0, 0, 3}
 			}
 			switch r.Weighted(w) {
 			case 0:
@@ -492,6 +492,8 @@ func GenSched(r *sim.Rand, tier string) sim.Script {
 				ops = append(ops, Op{K: "mergedb", P: p, V: []byte(fmt.Sprintf("d%d", n))})
 			case 12:
 				ops = append(ops, Op{K: "savecancel"})
+			case 13:
+				ops = append(ops, Op{K: "pp"})
 			}
 		}
 		s.Tasks = append(s.Tasks, ops)
